@@ -174,36 +174,49 @@ structure ResolveOut where
 def reqEndOf (endKey locEnd : Bytes) : Bytes :=
   if !endKey.isEmpty && (locEnd.isEmpty || Bytes.lt endKey locEnd) then endKey else locEnd
 
-/-- What handling the scanned batch `locks` removes from the store: the forced status check of
-    `BatchResolveLocks` (`getTxnStatus` with current ts = max, rollback-if-not-exist) rolls back the primary lock of
-    every transaction that has a lock in the batch, wherever that primary lies; the ResolveLock request itself
-    (`withBatch`) removes the batch. -/
-def touchedBy (locks : List Lock) (withBatch : Bool) (l : Lock) : Bool :=
-  (withBatch && locks.contains l) || (l.primary && locks.any (fun x => x.ts == l.ts))
+/-- What handling the scanned batch `locks` removes from the store.
+    * The forced status check of `BatchResolveLocks` (`getTxnStatus` with current ts = max, rollback-if-not-exist)
+      rolls back the primary lock of every transaction that has a lock in the batch, wherever that primary lies.
+    * The ResolveLock request (`withBatch`) carries the transactions' statuses, not keys: the store resolves every
+      lock of these transactions in the addressed region (`inReg`), which contains the whole batch. -/
+def touchedBy (locks : List Lock) (withBatch : Bool) (inReg : Lock → Bool) (l : Lock) : Bool :=
+  (withBatch && (locks.contains l || (inReg l && locks.any (fun x => x.ts == l.ts)))) ||
+  (l.primary && locks.any (fun x => x.ts == l.ts))
 
 /-- state after handling a batch: `withBatch = false` when the resolve came back with a nil location
     (region error, the batch no longer lies in one region): only the status checks took effect -/
-def resolved (st : ResolveOut) (key reqEnd : Bytes) (locks : List Lock) (limit : Nat) (withBatch : Bool) : ResolveOut :=
-  { batches := st.batches ++ [st.pop.filter (touchedBy locks withBatch)],
-    pop := st.pop.filter (fun l => !touchedBy locks withBatch l),
+def resolved (st : ResolveOut) (key reqEnd : Bytes) (locks : List Lock) (limit : Nat) (withBatch : Bool)
+    (inReg : Lock → Bool) : ResolveOut :=
+  { batches := st.batches ++ [st.pop.filter (touchedBy locks withBatch inReg)],
+    pop := st.pop.filter (fun l => !touchedBy locks withBatch inReg l),
     scans := st.scans ++ [⟨key, reqEnd, locks.length⟩],
     regions := if withBatch && decide (locks.length < limit) then st.regions + 1 else st.regions }
 
+/-- the region the ResolveLock request of a batch ends up in: the one containing its first lock, under the layout
+    at that time -/
+def batchRegion (l : Layout) (locks : List Lock) (x : Lock) : Bool :=
+  match locks.head? with
+  | some f => Bytes.le (regionStart l f.key) x.key &&
+      ((regionEnd l f.key).isEmpty || Bytes.lt x.key (regionEnd l f.key))
+  | none => false
+
 /-- `ResolveLocksForRange(maxV, key, endKey, limit)`.
+    `layouts i` = layout seen by the i-th scan, `rl i` = layout when its batch is resolved.
     `retry i key locks` = the resolve of the i-th scanned batch came back with a nil location: scan again from
     the same key. It is an input (it depends on region changes racing with the loop).
     `none`: out of fuel, or the Go code would panic (`locks[len(locks)-1]` with `scanLimit = 0`). -/
-def resolveLoop (layouts : Nat → Layout) (retry : Nat → Bytes → List Lock → Bool) (maxV : Nat) (endKey : Bytes) (limit : Nat) :
-    Nat → Nat → Bytes → ResolveOut → Option ResolveOut
+def resolveLoop (layouts rl : Nat → Layout) (retry : Nat → Bytes → List Lock → Bool) (maxV : Nat) (endKey : Bytes)
+    (limit : Nat) : Nat → Nat → Bytes → ResolveOut → Option ResolveOut
   | 0, _, _, _ => none
   | fuel + 1, i, key, st =>
     let locEnd := regionEnd (layouts i) key
     let reqEnd := reqEndOf endKey locEnd
     let locks := scan st.pop maxV key reqEnd limit
     if retry i key locks then
-      resolveLoop layouts retry maxV endKey limit fuel (i + 1) key (resolved st key reqEnd locks limit false)
+      resolveLoop layouts rl retry maxV endKey limit fuel (i + 1) key
+        (resolved st key reqEnd locks limit false (batchRegion (rl i) locks))
     else
-      let st' := resolved st key reqEnd locks limit true
+      let st' := resolved st key reqEnd locks limit true (batchRegion (rl i) locks)
       -- if len(locks) < int(scanLimit) { key = loc.EndKey } else { key = locks[len(locks)-1].Key }
       let next : Option Bytes :=
         if locks.length < limit then some locEnd
@@ -215,11 +228,11 @@ def resolveLoop (layouts : Nat → Layout) (retry : Nat → Bytes → List Lock 
       | some key' =>
         -- if len(key) == 0 || (len(endKey) != 0 && bytes.Compare(key, endKey) >= 0) { break }
         if key'.isEmpty || (!endKey.isEmpty && geB key' endKey) then some st'
-        else resolveLoop layouts retry maxV endKey limit fuel (i + 1) key' st'
+        else resolveLoop layouts rl retry maxV endKey limit fuel (i + 1) key' st'
 
-def resolveLocksForRange (layouts : Nat → Layout) (retry : Nat → Bytes → List Lock → Bool) (maxV : Nat) (startKey endKey : Bytes)
-    (limit fuel : Nat) (pop : List Lock) : Option ResolveOut :=
-  resolveLoop layouts retry maxV endKey limit fuel 0 startKey ⟨[], pop, [], 0⟩
+def resolveLocksForRange (layouts rl : Nat → Layout) (retry : Nat → Bytes → List Lock → Bool) (maxV : Nat)
+    (startKey endKey : Bytes) (limit fuel : Nat) (pop : List Lock) : Option ResolveOut :=
+  resolveLoop layouts rl retry maxV endKey limit fuel 0 startKey ⟨[], pop, [], 0⟩
 
 /-! ## CheckVisibility -/
 
